@@ -55,6 +55,11 @@ def main(argv=None):
     if a.replay:
         with open(a.replay) as f:
             v = json.load(f)
+        hs = v.get("hashseed")
+        if hs is not None and os.environ.get("PYTHONHASHSEED") != str(hs):
+            # replay under the string-hash seed the violation was observed with
+            os.execve(sys.executable, [sys.executable, "-m", "vf.run", *sys.argv[1:]],
+                      dict(os.environ, PYTHONHASHSEED=str(hs)))
         ctx = core.Ctx(prop, v.get("tier", "quick"), v.get("seed", 0))
         if not v.get("case_pickle"):
             print("replay file has no pickled case; case_repr:", v.get("case_repr"))
